@@ -49,7 +49,11 @@ SPECS = {
     RESULT + "::unwrap_or_else": ("result", {"Ok": ("raw", ("payload",)), "Err": ("raw", ("call", 1, "payload"))}),
     RESULT + "::is_ok_and": ("result", {"Ok": ("raw", ("call", 1, "payload")), "Err": ("bool", 0)}),
     RESULT + "::is_err_and": ("result", {"Ok": ("bool", 0), "Err": ("raw", ("call", 1, "payload"))}),
+    # `r?` on a Result that an expansion above turned into arms: Ok(v) continues with v, Err(e) breaks out with Err(e)
+    "<" + RESULT + "<T, E> as std::ops::Try>::branch": ("result", {"Ok": ("cf_continue", ("payload",)), "Err": ("cf_break", ("payload",))}),
 }
+SPECS["<" + OPTION + "<T> as std::ops::Try>::branch"] = ("option", {"Some": ("cf_continue", ("payload",)), "None": ("cf_break_none",)})
+CONTROL_FLOW = "std::ops::ControlFlow"
 
 
 def content_hash(body):
@@ -167,8 +171,94 @@ def _defs(body, live):
     return d
 
 
+def _direct_closure_calls(body, bodies, known, log):
+    """`let occupies = |b| ..; if occupies(x) ..`: a call of a local closure of this function is the closure's body."""
+    done = 0
+    for _attempt in range(60):
+        live = _live(body)
+        defs = _defs(body, live)
+        hit = None
+        for bi in sorted(live):
+            blk = body["blocks"][bi]
+            t = blk["term"]
+            if blk["cleanup"] or t["k"] != "call" or t.get("target") is None or len(t.get("args", [])) != 2:
+                continue
+            if t.get("decl") not in ("std::ops::Fn::call", "std::ops::FnMut::call_mut", "std::ops::FnOnce::call_once"):
+                continue
+            key = t.get("callee")
+            cb = bodies.get(key)
+            if cb is None or cb["kind"] != "closure" or key == body["key"]:
+                continue
+            owner = body["key"] if body["kind"] == "fn" else (body.get("parent") or body["key"])
+            if content_hash(cb) in known["closures"].get(cb.get("parent") or owner, []):
+                continue
+            # the closure value: through `&clo` / moves to the aggregate that built it
+            q = t["args"][0].get("move") or t["args"][0].get("copy")
+            captured = None
+            for _ in range(4):
+                if q is None or q["p"]:
+                    break
+                ds = defs.get(q["l"], [])
+                if len(ds) != 1:
+                    break
+                rv = ds[0]
+                if rv.get("k") == "agg" and rv.get("agg") == "closure" and rv.get("closure") == key:
+                    captured = rv["ops"]
+                    break
+                if rv.get("k") == "ref":
+                    q = rv["p"]
+                elif rv.get("k") == "use":
+                    q = rv["a"].get("move") or rv["a"].get("copy")
+                else:
+                    break
+            tp = t["args"][1].get("move") or t["args"][1].get("copy")
+            if captured is None or tp is None or tp["p"]:
+                continue
+            tds = defs.get(tp["l"], [])
+            if len(tds) != 1 or tds[0].get("k") != "agg" or tds[0].get("agg") != "tuple":
+                continue
+            if cb.get("arg_count") != 1 + len(tds[0]["ops"]):
+                continue
+            hit = (bi, key, captured, tds[0]["ops"])
+            break
+        if hit is None:
+            break
+        bi, key, captured, ops = hit
+        t = body["blocks"][bi]["term"]
+        cb = bodies[key]
+        env_ty = cb["locals"][1]["ty"] if len(cb["locals"]) > 1 else ""
+        env = t["args"][0]
+        if not env_ty.startswith("&"):
+            # called by value (FnOnce): hand the closure itself over
+            q = env.get("move") or env.get("copy")
+            env = {"move": dict(q, p=list(q["p"]) + ["*"])} if body["locals"][q["l"]]["ty"].startswith("&") else env
+        t["args"] = [env] + list(ops)
+        base_l = len(body["locals"])
+        base_b = len(body["blocks"])
+        _splice(body, bi, cb, "%s@%s" % (key, t.get("line")))
+        _bind_captures(body, base_l + 1, base_b, captured)
+        log.append({"function": body["key"], "combinator": "call of a local closure", "closure": None})
+        done += 1
+    return done
+
+
+def _option_residuals(body):
+    """In code that was put in place: `None?` ends in `Option::from_residual(None)`, which is `None`."""
+    n = 0
+    for blk in body["blocks"]:
+        t = blk["term"]
+        if blk["cleanup"] or not blk.get("spliced") or t["k"] != "call" or t.get("target") is None:
+            continue
+        if strip_generics(t.get("callee") or "").startswith("<" + OPTION + "<T> as std::ops::FromResidual<" + OPTION):
+            blk["stmts"].append({"lhs": t["dest"], "rv": _agg(OPTION, "None", []), "line": t.get("line"), "exp": False})
+            blk["term"] = {"k": "goto", "target": t["target"], "line": t.get("line"), "exp": False}
+            n += 1
+    return n
+
+
 def expand_body(body, bodies, known, log):
-    n_done = 0
+    n_done = _direct_closure_calls(body, bodies, known, log)
+    _option_residuals(body)
     for _attempt in range(40):
         live = _live(body)
         defs = _defs(body, live)
@@ -216,6 +306,14 @@ def expand_body(body, bodies, known, log):
                 ref_n = known["plain"].get(body["key"], {}).get(c, 0)
                 now_n = sum(1 for b2 in live if strip_generics(body["blocks"][b2]["term"].get("callee") or "") == c)
                 is_new = now_n > ref_n and c.endswith("then_some")
+                if c.endswith("Try>::branch"):
+                    # only where the operand was built by the arms of an earlier expansion (`x.map_err(f)?`)
+                    ds = defs.get(rp["l"], [])
+                    is_new = len(ds) >= 2 and all(d.get("k") == "agg" and d.get("agg") == "adt" and d.get("adt") in (RESULT, OPTION) for d in ds)
+            if blk.get("spliced") and not is_new and not any(f[0] == "closure" for f, _e in fns.values()):
+                # inside code that is itself new here (the body of a new closure or helper that was put in place): a
+                # closure-less combinator (`?`, then_some) in it is new; one with a closure is judged by its closure as usual
+                is_new = True
             if not is_new:
                 continue
             site = (bi, c, kind, plans, fns)
@@ -253,6 +351,11 @@ def _rewrite(body, bodies, bi, callee, kind, plans, fns):
         wrap = plan[0]
         if wrap == "none":
             stmts.append({"lhs": dest, "rv": _agg(OPTION, "None", []), "line": line, "exp": False})
+            continue
+        if wrap == "cf_break_none":
+            e2 = _new_local(body)
+            stmts.append({"lhs": _pl(e2), "rv": _agg(OPTION, "None", []), "line": line, "exp": False})
+            stmts.append({"lhs": dest, "rv": _agg(CONTROL_FLOW, "Break", [{"move": _pl(e2)}]), "line": line, "exp": False})
             continue
         if wrap == "bool":
             stmts.append({"lhs": dest, "rv": {"k": "use", "a": {"const": {"ty": "bool", "int": plan[1]}}}, "line": line, "exp": False})
@@ -298,6 +401,12 @@ def _rewrite(body, bodies, bi, callee, kind, plans, fns):
             value_op = {"move": _pl(r)}
         if wrap == "some":
             stmts.append({"lhs": dest, "rv": _agg(OPTION, "Some", [value_op]), "line": line, "exp": False})
+        elif wrap == "cf_continue":
+            stmts.append({"lhs": dest, "rv": _agg(CONTROL_FLOW, "Continue", [value_op]), "line": line, "exp": False})
+        elif wrap == "cf_break":
+            e2 = _new_local(body)
+            stmts.append({"lhs": _pl(e2), "rv": _agg(RESULT, "Err", [value_op]), "line": line, "exp": False})
+            stmts.append({"lhs": dest, "rv": _agg(CONTROL_FLOW, "Break", [{"move": _pl(e2)}]), "line": line, "exp": False})
         elif wrap == "ok":
             stmts.append({"lhs": dest, "rv": _agg(RESULT, "Ok", [value_op]), "line": line, "exp": False})
         elif wrap == "err":
@@ -384,7 +493,7 @@ def _bind_captures(body, env, first_block, captured):
             t["p"] = fix(t["p"])
 
 
-_STD_VARIANTS = {OPTION: {"None": 0, "Some": 1}, RESULT: {"Ok": 0, "Err": 1}}
+_STD_VARIANTS = {OPTION: {"None": 0, "Some": 1}, RESULT: {"Ok": 0, "Err": 1}, "std::ops::ControlFlow": {"Continue": 0, "Break": 1}}
 
 
 def _succs(t):
@@ -530,9 +639,32 @@ def thread_variant_switches(body, adts):
             return None
         return last["rv"]
 
+    def skip_empty_gotos():
+        # edges into a block that does nothing but jump on go where it goes (joins left behind by splicing)
+        blocks = body["blocks"]
+
+        def final(x, hops=0):
+            while hops < 10 and 0 <= x < len(blocks) and not blocks[x]["cleanup"] and blocks[x]["term"]["k"] == "goto" \
+                    and not any("lhs" in st for st in blocks[x]["stmts"]) and blocks[x]["term"]["target"] != x:
+                x = blocks[x]["term"]["target"]
+                hops += 1
+            return x
+        for b in _live(body):
+            t = blocks[b]["term"]
+            if blocks[b]["cleanup"]:
+                continue
+            if t["k"] == "goto":
+                t["target"] = final(t["target"])
+            elif t["k"] == "switch":
+                t["arms"] = [[a[0], final(a[1])] for a in t["arms"]]
+                t["otherwise"] = final(t["otherwise"])
+            elif t["k"] in ("call", "drop", "assert") and t.get("target") is not None:
+                t["target"] = final(t["target"])
+
     changed_any = False
     for _round in range(40):
         changed = False
+        skip_empty_gotos()
         live = _live(body)
         preds = _preds(body, live)
         for s_i in sorted(live):
